@@ -212,6 +212,10 @@ fn gen_case(seed: u64, i: u64, thorough: bool) -> Case {
             for _ in 0..nmut {
                 muts.push(seeds::mutate_text(r, &mut d));
             }
+            // the `&str` parsers get valid UTF-8 (lossy conversion done here so that the line shows it)
+            if matches!(which, "tag" | "sel" | "ptag") {
+                d = String::from_utf8_lossy(&d).into_owned().into_bytes();
+            }
             Case { kind: "text".into(), arg: which.into(), muts, data: d }
         }
     }
